@@ -10,6 +10,7 @@ THEOREMS = [
     "InstGen.truncMul_sign",
     "InstGen.mkSpace_ok",
     "InstGen.phase1_terminates",
+    "InstGen.search1_fuel_irrelevant",
     "InstGen.phase1_guillotine",
     "InstGen.phase2_inv",
     "InstGen.merge_preserves_multiset",
@@ -65,6 +66,13 @@ def citems(items) -> str:
 
 def fitems(items) -> str:
     return " | ".join(" ".join(str(int(v)) for v in r) for r in items)
+
+
+# corpus: vectors that exposed past defects (run first).  (index into SYNTHETIC, vector)
+CORPUS = [
+    # fix 501ce37: without `current_area -= ...` two slack pairs cut the area to 95 <= 100, lower_bound_bins 1 != 2
+    (0, [0.93, -0.44, -0.75, 0.66, -0.41, 0.69, 0.22, 0.02, -0.83, 0.57, -0.87, 0.93, 0.75, -0.39]),
+]
 
 
 class Tpl:
@@ -172,7 +180,7 @@ def gen_vectors(ck: Check, t: Tpl, budget: int):
 
 
 def gen_exhaustive(ck: Check, t: Tpl):
-    cap = 1000 if ck.quick else 60000
+    cap = 2000 if ck.quick else 20000
     for k in range(3):
         d = 2 * (t.base + k)
         if d == 0:
@@ -316,10 +324,12 @@ def streams(ck: Check) -> None:
             ck.count("slack_area_cut")
         return res
 
+    for j, x in CORPUS:
+        add_decode(tpls[j], "corpus", x, True)
     for t in tiny:
         for stream, x in gen_exhaustive(ck, t):
             add_decode(t, stream, x, True)
-    per_tpl = 90 if ck.quick else 500
+    per_tpl = 150 if ck.quick else 500
     err_ops = []
     for t in tpls:
         budget = per_tpl if t.W * t.H < 10**6 else max(14, per_tpl // 4)
@@ -379,7 +389,7 @@ def streams(ck: Check) -> None:
         mcanon = " ".join(f"{k}={d.get(k)}" for k in ("merged", "final", "n", "area"))
         same = ck.compare(stream, line[:600], mcanon, iout)
         t, x, res, in_range = ctx
-        if not in_range and stream != "exhaustive" and stream != "exh_sampled":
+        if not in_range and stream not in ("exhaustive", "exh_sampled", "corpus"):
             continue
         sp = t.space
         case = {"template": t.name, "W": t.W, "H": t.H, "min_bins": t.k, "n_items": t.n,
@@ -449,7 +459,7 @@ def hardness_test(ck: Check, tpls) -> None:
 
 
 def check(ck: Check) -> None:
-    ck.rule = ("binary64 int(k*x) op on boundary values; InstanceSpace fields of synthetic/random/shipped templates; decode: "
+    ck.rule = ("corpus vector of the repaired slack-area defect; binary64 int(k*x) op on boundary values; InstanceSpace fields of synthetic/random/shipped templates; decode: "
                "exhaustive vectors over a 10-value alphabet (-1, -0.0, 0.0, 1, float neighbours, +-0.5) for tiny templates "
                "(n_items - min_bins <= 2, <= 2 slack pairs; sampled above the cap), per template vectors of every admissible "
                "length with 0..6 slack pairs (constant boundary vectors, uniform, mixed, greedy-slack, thin-slice), short/odd/"
